@@ -7,7 +7,7 @@ from vk import refmodel as rm, strategies as S, wave as W
 from vk.build import build
 
 ID = 'C03'
-RULE = ('Part stress: one or two 4-input gates at capacity 4-12 with up to 3 close edges per input and very unequal pin delays. Part settle: Hypothesis-generated netlists (XOR-rich, all primitives, forks, state elements as pseudo inputs/outputs, open pins) x four independent '
+RULE = ('Part bigreuse: chains of 23000-46000 two-input cells with an unconnected pin (> 2^16 references to the constant-0 slot) with memory re-use: initial / final value and last arrival at every tap. Part stress: one or two 4-input gates at capacity 4-12 with up to 3 close edges per input and very unequal pin delays. Part settle: Hypothesis-generated netlists (XOR-rich, all primitives, forks, state elements as pseudo inputs/outputs, open pins) x four independent '
         'non-negative delays per line on a 1/8 grid (float32 or float64 arrays) x capacities (uniform 4/8/16/64 or per-line multiples of 4, biased '
         'small so that overflow happens) x 1..6 lanes x input waveforms with 0..3 transitions (0/1 through s[0..2], more written into the input '
         'slots of c) x strip_forks x optionally an earlier, different assignment and propagation on the same simulator object. Oracle: own Boolean evaluator: on every line the waveform starts at f(initial values) and its entry parity '
@@ -71,6 +71,7 @@ def prop(case):
     ini, fin = W.init_final_bits(case['waves'], lanes)
     sig_i = rm.eval2(nl, ini[:npi], ini[npi:], mask)
     sig_f = rm.eval2(nl, fin[:npi], fin[npi:], mask)
+    sig_i['zero'] = sig_f['zero'] = 0          # lines of floating nets
     n_ovl = 0
     n_busy = 0
     for line in ([] if case.get('c_reuse') else b.c.lines):       # with memory reuse only the captured values can be read
@@ -124,5 +125,42 @@ def stress_cases(draw, tier):
                 cuda=draw(st.sampled_from([False, False, True])))
 
 
-PARTS = [Part('stress', prop, strategy=stress_cases, quick=(4, 500), thorough=(16, 20000)),
+def enum_bigreuse(tier):
+    """more than 2^16 references to the constant-0 slot in a timing simulator with memory re-use"""
+    yield dict(n=23000, tap=2300, c_reuse=True, strip_forks=False, lanes=2)
+    if tier == 'thorough':
+        yield dict(n=23000, tap=0, c_reuse=True, strip_forks=True, lanes=1)
+        yield dict(n=46000, tap=5000, c_reuse=True, strip_forks=True, lanes=3)
+        yield dict(n=23000, tap=2300, c_reuse=False, strip_forks=False, lanes=2)
+
+
+def prop_bigreuse(case):
+    from kyupy.wave_sim import WaveSim
+    from vk import bigcirc
+    lanes = case['lanes']
+    va = 0b101 & ((1 << lanes) - 1)          # lane 0 rises, lane 1 falls, lane 2 rises
+    c, exp_after, depth = bigcirc.openchain(case['n'], va, (1 << lanes) - 1, case['tap'])
+    _, exp_before, _ = bigcirc.openchain(case['n'], ~va, (1 << lanes) - 1, case['tap'])
+    delays = np.full((1, len(c.lines), 2, 2), 0.125, dtype=np.float32)
+    for l in c.lines:
+        if l.reader.kind in ('__fork__', 'output'):
+            delays[:, l.index] = 0
+    sim = WaveSim(c, delays, sims=lanes, c_caps=4, c_reuse=case['c_reuse'], strip_forks=case['strip_forks'])
+    for lane in range(lanes):
+        sim.s[0, 0, lane] = 1 - ((va >> lane) & 1)
+        sim.s[1, 0, lane] = 1.0
+        sim.s[2, 0, lane] = (va >> lane) & 1
+    sim.s_to_c(); sim.c_prop(); sim.c_to_s()
+    for k, (ea, eb, d) in enumerate(zip(exp_after, exp_before, depth)):
+        for lane in range(lanes):
+            got = (float(sim.s[3, 1 + k, lane]), float(sim.s[6, 1 + k, lane]), float(sim.s[5, 1 + k, lane]))
+            want = (float((eb >> lane) & 1), float((ea >> lane) & 1), 1.0 + d * 0.125)
+            if got != want:
+                raise Violation(f'output {k} (after {d} cells with an unconnected second pin) lane {lane}: (initial, final, last arrival) = {got}, '
+                                f'the netlist and its delays say {want}')
+    return Obs(True, [f'n{case["n"]}', 'c_reuse' if case['c_reuse'] else 'no_reuse'], checks=len(depth) * lanes)
+
+
+PARTS = [Part('bigreuse', prop_bigreuse, enumerate=enum_bigreuse, quick=(1, 0), thorough=(4, 0)),
+         Part('stress', prop, strategy=stress_cases, quick=(4, 500), thorough=(16, 20000)),
          Part('settle', prop, strategy=cases, quick=(8, 400), thorough=(16, 10000))]
